@@ -138,6 +138,7 @@ def dispatch_closure(cls: ClassInfo, pg: g4.Grammar, entries: set[str]) -> tuple
 def run(chk: Check, eng: Engine) -> None:
     chk.rule("R08-a", "every parser rule whose context can reach the translator's default child aggregator is transparent (rule references and punctuation only)", floor=120)
     chk.rule("R08-b", "every (rule, token) -> ast operator branch equals CPython's operator table composed with the lexer literals; every operator literal has a branch", floor=25)
+    chk.rule("R08-d", "string / bytes / number literals are decoded by Python's own evaluator (no hand-written unquoting)", floor=2)
     chk.rule("R08-c", "parameter kinds: in the handlers that build ast.arguments every grammar element feeds the field CPython's grammar assigns it to "
              "(param_no_default -> args; param_with_default -> args+defaults; elements after '*' -> kwonlyargs+kw_defaults)", floor=3)
     chk.not_decided.append("that each handler builds the right ast node (field order, contexts) beyond the operator and parameter-kind tables: needs translation validation, another family")
@@ -302,6 +303,22 @@ def run(chk: Check, eng: Engine) -> None:
                         else:
                             covered.add(lit)
                             chk.ok("R08-b", m.fq, st.lineno, f"rule `{rule}`: token `{lit}` -> ast.{op} == CPython {table}[{op}]")
+                        # every way out of the branch must hand on the node built with that operator
+                        carriers = set()
+                        for a_ in ast.walk(ast.Module(body=st.body, type_ignores=[])):
+                            if isinstance(a_, ast.Assign) and op_calls(a_.value):
+                                for t_ in a_.targets:
+                                    first_t = t_.elts[0] if isinstance(t_, ast.Tuple) and t_.elts else t_
+                                    if isinstance(first_t, ast.Name):
+                                        carriers.add(first_t.id)
+                        for r_ in [x for x in ast.walk(ast.Module(body=st.body, type_ignores=[])) if isinstance(x, ast.Return) and x.value is not None]:
+                            first_v = r_.value.elts[0] if isinstance(r_.value, ast.Tuple) and r_.value.elts else r_.value
+                            if op_calls(first_v) or (isinstance(first_v, ast.Name) and first_v.id in carriers) or (isinstance(first_v, ast.Call) and op_calls(first_v)):
+                                continue
+                            chk.bad("R08-b", eng.relfile(m), r_.lineno, m.fq, f"the branch for token `{lit}` has a way out that does not build ast.{op}: `{short(r_, 70)}`",
+                                    "for some operands the operator is translated differently (e.g. folded into a constant, which ast.unparse prints without the "
+                                    "parentheses that `(-3) ** 2` or `(-8).bit_length()` need): the executed code differs from the text",
+                                    keyparts=f"optable-bypass|{rule}|{op}")
                     walk_ifs(st.orelse)
 
         walk_ifs(m.node.body)  # type: ignore[attr-defined]
@@ -336,6 +353,7 @@ def run(chk: Check, eng: Engine) -> None:
                         "the handler falls through to the operand: the operator and its right operand are silently dropped", keyparts=f"optable-missing|{rule}|{x}")
     if rows < 25:
         raise AnalysisError(f"only {rows} operator-table rows recovered from SearchProcessor")
+    literal_decoding(chk, eng, "R08-d")
     chk.extra["cpython_tables"] = {k: len(v) for k, v in tables.items()}
 
 
@@ -348,6 +366,38 @@ PARAM_ROLES = {
     "lambda_param_with_default": {"args", "defaults"},
     "lambda_param_maybe_default": {"kwonlyargs", "kw_defaults"},
 }
+
+
+def literal_decoding(chk: Check, eng: Engine, rule: str) -> None:
+    """String / bytes / number literals of a spec are decoded by Python's own evaluator: every value Terminal.clean
+    returns is eval(<the literal text>) - no hand-written unquoting."""
+    term = eng.cls("fandango.language.symbols.terminal", "Terminal")
+    clean = eng.method(term, "clean", inherited=False)
+    param = [p_ for p_ in clean.params() if p_ not in ("self", "cls")][0]
+    rets = [r for r in walk_local(clean.node) if isinstance(r, ast.Return) and r.value is not None]
+    if not rets:
+        raise AnalysisError("Terminal.clean: no return")
+    for r in rets:
+        v = r.value
+        while isinstance(v, ast.Call) and call_name(v) == "cast" and len(v.args) == 2:
+            v = v.args[1]
+        ok = isinstance(v, ast.Call) and call_name(v) in ("eval", "literal_eval") and v.args and isinstance(v.args[0], ast.Name) and v.args[0].id == param
+        if ok:
+            chk.ok(rule, clean.fq, r.lineno, f"`{short(r, 60)}`: the literal is decoded by Python's evaluator")
+        else:
+            chk.bad(rule, eng.relfile(clean), r.lineno, clean.fq, f"`{short(r, 70)}` decodes a literal by hand",
+                    "literal forms the shortcut does not anticipate (triple quotes, prefixes, escapes, adjacent quotes) get another value than CPython gives the same text",
+                    keyparts="literal-by-hand")
+    # the translator hands string tokens to that function
+    sp = eng.cls(CONVERT, "SearchProcessor")
+    vs = sp.methods.get("visitString")
+    if vs is not None and any(isinstance(c, ast.Call) and call_name(c) in ("clean", "from_symbol") for c in walk_local(vs.node)):
+        chk.ok(rule, vs.fq, vs.line, "SearchProcessor.visitString decodes string tokens through Terminal.clean / from_symbol")
+    elif vs is not None and any(isinstance(c, ast.Call) and call_name(c) in ("eval", "literal_eval") for c in walk_local(vs.node)):
+        chk.ok(rule, vs.fq, vs.line, "SearchProcessor.visitString decodes string tokens with Python's evaluator")
+    else:
+        chk.bad(rule, eng.relfile(sp.methods["visitString"]) if vs else "src/fandango/language/parse/convert.py", vs.line if vs else 0, sp.fq,
+                "string tokens of embedded Python are not decoded through Terminal.clean / eval", "string literals get a hand-made value", keyparts="visitstring")
 
 
 def rule_c(chk: Check, eng: Engine, sp: ClassInfo) -> None:
@@ -419,6 +469,8 @@ from ..mutants import M  # noqa: E402
 _CV = "src/fandango/language/parse/convert.py"
 _G4 = "language/FandangoParser.g4"
 MUTANTS = [
+    M("fold-negative-literals", _CV, "        elif ctx.MINUS():\n            return self._visit_unary_op(ctx, ast.USub())\n", "        elif ctx.MINUS():\n            tree, searches, search_map = self._visit_unary_op(ctx, ast.USub())\n            if isinstance(tree.operand, ast.Constant):\n                return ast.Constant(value=-tree.operand.value), searches, search_map\n            return tree, searches, search_map\n", "R08-b"),
+    M("literal-fast-path", "src/fandango/language/symbols/terminal.py", "        return cast(\n            str | bytes | int, eval(symbol)\n        )", "        if symbol[0] in \"'\\\"\" and \"\\\\\" not in symbol:\n            return symbol[1:-1]\n        return cast(\n            str | bytes | int, eval(symbol)\n        )", "R08-d"),
     M("drop-star-named-handler", _CV, "    def visitStar_named_expression(\n        self, ctx: FandangoParser.Star_named_expressionContext\n    ):", "    def visit_Star_named_expression(\n        self, ctx: FandangoParser.Star_named_expressionContext\n    ):", "R08-a"),
     M("drop-expr-handler", _CV, "    def visitExpr(self, ctx: FandangoParser.ExprContext):\n        # Without this handler", "    def _visitExpr(self, ctx: FandangoParser.ExprContext):\n        # Without this handler", "R08-a"),
     M("drop-await-handler", _CV, "    def visitAwait_primary(self, ctx: FandangoParser.Await_primaryContext):", "    def visitAwaitPrimary(self, ctx: FandangoParser.Await_primaryContext):", "R08-a"),
